@@ -26,8 +26,8 @@ TIERS = {
     # above what the rlimit allows on this machine, so that verdicts do not depend on the speed or load of the machine
     # (slowest obligation of the unchanged tree: ~80 s of solver time here; an obligation that is FALSE on a changed tree uses its whole budget,
     # which is what ob_s caps)
-    "quick": dict(rlimit=200_000_000, timeout_ms=300_000, cvc5=True, ob_s=420),
-    "thorough": dict(rlimit=1_000_000_000, timeout_ms=900_000, cvc5=True, ob_s=2400, confirm=True),
+    "quick": dict(rlimit=200_000_000, timeout_ms=900_000, cvc5=True, ob_s=1500),
+    "thorough": dict(rlimit=1_000_000_000, timeout_ms=1_800_000, cvc5=True, ob_s=3600, confirm=True),
 }
 
 
@@ -313,6 +313,28 @@ class Runner:
         from .forkpool import run_forked
 
         res = run_forked(len(WORK), work_item, min(16, os.cpu_count() or 4), self.budget["ob_s"] + 45) if WORK else []
+        # second pass: sub-goals the first pass (small budget slices) left open are solved one per worker with the full budget, so that the hard
+        # tail of one obligation runs in parallel instead of one after the other
+        first_n = len(WORK)
+        reopened = []
+        for idx_, ((kind, _r, E_, ob_), r_) in enumerate(zip(list(WORK), res)):
+            if kind != "ob" or not isinstance(r_, dict) or "subs" not in r_:
+                continue
+            for sr in r_["subs"]:
+                if sr.get("verdict") == "open":
+                    WORK.append(("ob", self, E_, ob_, sr["k"]))
+                    reopened.append((idx_, sr["k"]))
+        if len(WORK) > first_n:
+            res2 = run_forked(len(WORK) - first_n, lambda j: work_item(first_n + j), min(16, os.cpu_count() or 4), self.budget["ob_s"] + 45)
+            for (idx_, k_), r2 in zip(reopened, res2):
+                tgt = res[idx_]["subs"]
+                pos = next(p_ for p_, sr in enumerate(tgt) if sr.get("k") == k_)
+                if isinstance(r2, dict) and r2.get("subs"):
+                    tgt[pos] = r2["subs"][0]
+                else:
+                    tgt[pos] = {"verdict": "unknown", "backend": "", "model": None, "secs": (r2 or {}).get("secs", 0) if isinstance(r2, dict) else 0,
+                                "detail": [("second-pass", "killed" if isinstance(r2, dict) and r2.get("killed") else str(r2)[:200], 0)], "goal": tgt[pos].get("goal", ""), "k": k_}
+            del WORK[first_n:]
         obligations = []
         for (kind, _, E, ob), r in zip(WORK, res):
             if kind == "canary":
@@ -486,7 +508,7 @@ WORK = []
 
 
 def work_item(i):
-    kind, runner, E, ob = WORK[i]
+    kind, runner, E, ob = WORK[i][:4]
     try:
         if kind == "canary":
             # can `False` be proved from the path condition with the SAME machinery that discharges obligations (instances of quantified
@@ -515,11 +537,15 @@ def work_item(i):
         subs = smt.split_goal(smt.flatten_hyps(ob.pc), ob.goal, [])
         out = []
         deadline = time.time() + runner.budget["ob_s"]
-        for pc2, g, sk in subs:
+        only = WORK[i][4] if len(WORK[i]) > 4 else None  # second pass: exactly one (still open) sub-goal, with the full budget, in its own worker
+        for k, (pc2, g, sk) in enumerate(subs):
+            if only is not None and k != only:
+                continue
             hints = hint_fn(sk)
             stages = smt.build_stages(pc2, g, sk, ob.idx, hints, E.c.float)
-            r = smt.solve_stages(stages, runner.budget["rlimit"], runner.budget["timeout_ms"], runner.budget["cvc5"], terms, deadline, confirm=runner.budget.get("confirm", False))
+            r = smt.solve_stages(stages, runner.budget["rlimit"], runner.budget["timeout_ms"], runner.budget["cvc5"], terms, deadline, confirm=runner.budget.get("confirm", False), fast=only is None)
             r["goal"] = str(g)[:400].replace("\n", " ")
+            r["k"] = k
             out.append(r)
             if r["verdict"] in ("sat", "sat-qf"):
                 break  # one refuted sub-goal refutes the obligation
